@@ -145,7 +145,7 @@ func init() {
 		if c, ok := a[0].(int64); ok {
 			return float64(c) / 1e9
 		}
-		unsup("Duration.Seconds on symbolic duration")
-		return nil
+		fr.i.ex.noteApprox("time.Duration.Seconds on a symbolic duration is 0.0 (floats are not modelled; used for trace output)")
+		return float64(0)
 	})
 }
